@@ -1,14 +1,18 @@
 #!/bin/sh
-# selftest/refactors.sh : every behaviour-preserving refactoring under selftest/refactors/ must leave every
+# selftest/refactors.sh [glob] : every behaviour-preserving refactoring under selftest/refactors/ must leave every
 # registered check at exit 0 (no alarm, no lost anchor).  Prints the offenders.  Runs 6 patches at a time.
-# optional argument: a glob over the fixture names, e.g. 'S*'
+# A fixture whose meta.json lists "tolerate_exit2": [ids] deletes an anchor function; for those ids exit 2
+# (analysis broken: anchor lost) is the designed answer and is accepted - exit 1 never is.
 here=$(cd "$(dirname "$0")" && pwd)
 tmp=$(mktemp -d)
 ls "$here"/refactors/${1:-*}/patch.diff | xargs -P 6 -I{} sh -c 'n=$(basename $(dirname {})); python3 "'"$here"'/mutant.py" {} > "'"$tmp"'/$n.log" 2>&1'
 bad=0
 for l in "$tmp"/*.log; do
+  n=$(basename $l .log)
+  tol=$(python3 -c "import json,sys; print(' '.join(json.load(open('$here/refactors/$n/meta.json')).get('tolerate_exit2', [])))" 2>/dev/null)
   out=$(grep -E "exit=[12]|PATCH DOES NOT APPLY" "$l")
-  if [ -n "$out" ]; then echo "ALARM on behaviour-preserving $(basename $l .log):"; echo "$out"; bad=1; fi
+  for t in $tol; do out=$(echo "$out" | grep -v "^$t exit=2"); done
+  if [ -n "$out" ]; then echo "ALARM on behaviour-preserving $n:"; echo "$out"; bad=1; fi
 done
 rm -rf "$tmp"
 [ $bad = 0 ] && echo "all refactorings silent"
